@@ -220,5 +220,34 @@ func VHKeyedTry() {
 		})
 	}
 	vAssert(vWait(), "TryLockKey never blocks")
+	// a try call on a fresh key racing with a LockKey whose holder never unlocks: it must return
+	var km3 KeyedMutex[int]
+	var kr3 KeyedRWMutex[int]
+	variant := vChoose("neverblock", 3)
+	vGo(func() {
+		if variant == 0 {
+			km3.LockKey(keys[1])
+		} else {
+			kr3.LockKey(keys[1])
+		}
+	})
+	vGo(func() {
+		// (a successful try is released again, so that only the try call itself could block)
+		switch variant {
+		case 0:
+			if km3.TryLockKey(keys[1]) {
+				km3.UnlockKey(keys[1])
+			}
+		case 1:
+			if kr3.TryLockKey(keys[1]) {
+				kr3.UnlockKey(keys[1])
+			}
+		case 2:
+			if kr3.TryRLockKey(keys[1]) {
+				kr3.RUnlockKey(keys[1])
+			}
+		}
+	})
+	vAssert(vWait(), "TryLockKey/TryRLockKey never block, even while the key is being taken for the first time by a holder that keeps it")
 	vCover("keyed try done")
 }
